@@ -15,8 +15,9 @@ ENC = ["asynq/futures.py: FutureBase.value/error/__call__/is_computed/set_value/
        "asynq/async_task.py: AsyncTask._compute/_computed/_queue_exit/_queue_throw_error",
        "asynq/batching.py: BatchItemBase._compute, BatchBase.flush/_compute/_computed"]
 
-NOPS = 9
-OPNAMES = ["value", "error", "call", "is_computed", "set_value", "set_error", "reset_unsafe", "sub_good", "sub_raise"]
+NOPS = 10
+OPNAMES = ["value", "error", "call", "is_computed", "set_value", "set_error", "reset_unsafe", "sub_good", "sub_raise",
+           "sub_once (a subscriber that unsubscribes itself when notified)"]
 
 
 class _B(asynq.BatchBase):
@@ -63,8 +64,10 @@ class Model(object):
     def complete(self, st):
         self.state = st
         if not self.const:
-            for sid, _r in self.subs:
-                self.notes.append((sid, st))
+            for ent in list(self.subs):
+                self.notes.append((ent[0], st))
+                if len(ent) > 2 and ent[2]:
+                    self.subs.remove(ent)       # one-shot: gone after its first notification
 
     def compute(self):
         """-> exception to be raised by the computing call itself (Future re-raises), or None"""
@@ -144,13 +147,15 @@ def mk(L):
         got_notes = []
         nsub = [0]
 
-        def mk_cb(sid, raising):
+        def mk_cb(sid, raising, once=False):
             def cb(fu):
                 # the outcome must be visible when subscribers are notified
                 if not fu.is_computed():
                     got_notes.append((sid, "NOT-COMPUTED"))
                 else:
                     got_notes.append((sid, ("e", fu._error) if fu._error is not None else ("v", fu._value)))
+                if once:
+                    fu.on_computed.unsubscribe(cb)
                 if raising:
                     raise ValueError("subscriber fails")
             return cb
@@ -206,7 +211,7 @@ def mk(L):
                     exp = ("v", None)
                 else:
                     nsub[0] += 1
-                    m.subs.append((nsub[0], op == 8))
+                    m.subs.append((nsub[0], op == 8, op == 9))
                     exp = ("v", None)
                 # ---- real
                 try:
@@ -226,7 +231,7 @@ def mk(L):
                         elif op == 6:
                             r = fut.reset_unsafe()
                         else:
-                            r = fut.on_computed.subscribe(mk_cb(nsub[0], op == 8))
+                            r = fut.on_computed.subscribe(mk_cb(nsub[0], op == 8, op == 9))
                             r = None
                     got = ("v", r)
                 except F.FutureIsAlreadyComputed:
